@@ -405,6 +405,59 @@ fn within(ranges: &[(u64, u64)], allowed: &[(u64, u64)]) -> Option<(u64, u64)> {
     }
     None
 }
+/// an asynchronous lookup that is given up while the stream answers Pending (a time-out, a select! that lost) must leave
+/// nothing behind: later lookups of the same and of other tiles, and a save, see the same bytes as the synchronous API
+fn chk_cancel(bytes: &[u8]) -> Result<(), String> {
+    use std::future::Future;
+    let v = spec::parse(bytes, false).map_err(|e| format!("harness: archive invalid: {e}"))?;
+    let all = spec::all_tiles(&v, 100_000)?;
+    let ids: Vec<u64> = all.keys().copied().collect();
+    if ids.is_empty() {
+        return Ok(());
+    }
+    let sh = AShared::new(Core::new(bytes.to_vec(), 0));
+    let mut pm = res(catch_unwind(AssertUnwindSafe(|| block_on(PMTiles::from_async_reader(sh.clone())))), "open")?;
+    // every operation of the stream answers Pending once before it is served, transfers come in pieces
+    sh.0.lock().unwrap().sched = crate::streams::Schedule { chunks: vec![5, 1, 64], pend: vec![true] };
+    let waker = futures::task::noop_waker();
+    let mut cx = std::task::Context::from_waker(&waker);
+    for (n, id) in ids.iter().step_by((ids.len() / 10).max(1)).enumerate() {
+        for polls in 1..=4usize {
+            {
+                let mut fut = Box::pin(pm.get_tile_by_id_async(*id));
+                for _ in 0..polls + n % 2 {
+                    if fut.as_mut().poll(&mut cx).is_ready() {
+                        break;
+                    }
+                }
+                // dropped here, possibly in the middle of the tile's read
+            }
+            let other = ids[(n * 7 + polls) % ids.len()];
+            for look in [*id, other, *id] {
+                let got = res(catch_unwind(AssertUnwindSafe(|| block_on(pm.get_tile_by_id_async(look)))), "get_tile_by_id_async after a cancelled lookup")?;
+                if got.as_deref() != Some(spec::tile_bytes(bytes, &v.header, all[&look])?) {
+                    return Err(format!("after a lookup of tile {id} was given up after {polls} polls, the lookup of tile {look} returns other bytes than the archive holds"));
+                }
+            }
+        }
+    }
+    // a save after cancelled lookups
+    {
+        let mut fut = Box::pin(pm.get_tile_by_id_async(ids[0]));
+        let _ = fut.as_mut().poll(&mut cx);
+        let _ = fut.as_mut().poll(&mut cx);
+    }
+    let mut out = futures::io::Cursor::new(Vec::new());
+    res(catch_unwind(AssertUnwindSafe(|| block_on(pm.to_async_writer(&mut out)))), "to_async_writer after cancelled lookups")?;
+    let out = out.into_inner();
+    let w = spec::parse(&out, true).map_err(|e| format!("the archive saved after cancelled lookups is invalid: {e}"))?;
+    for (id, ol) in spec::all_tiles(&w, 100_000)? {
+        if all.get(&id).map(|o| spec::tile_bytes(bytes, &v.header, *o)) != Some(spec::tile_bytes(&out, &w.header, ol)) {
+            return Err(format!("tile {id} of the archive saved after cancelled lookups has other bytes than the source"));
+        }
+    }
+    Ok(())
+}
 /// an archive whose told directory lengths are too short (or otherwise wrong): whether or not it opens, nothing outside
 /// the header, the metadata section, the root window and the leaf section it was told about is read
 fn chk_windows_told(mode: &str, bytes: &[u8]) -> Result<(), String> {
